@@ -18,6 +18,7 @@ FIXED = [
  ("C11", "read_all_with_deletion_marker/len", "fix: index regeneration rejects a tail", "tail record cut inside meta/data (torn write, failed second buffer) is indexed by the start-up scan when data validation is off"),
  ("C11", "read_all_with_deletion_marker/load-err", "fix: existing blobs are opened for positional", "reopened blobs use O_APPEND: after a failed/short write every later acknowledged record lands at another offset than its header says and is unreadable"),
  ("C14", "cancel/restore/after-drop/read/mismatch", "fix: restore_active_blob loads the index before", "try_restore_active_blob dropped while the index is loaded loses the blob taken out of the closed list (regression of the first restore fix, found by the cancellation sweep)"),
+ ("C06", "crash/damaged-blob-accepted", "fix: the torn-record check of the blob scan also covers", "with data validation on, a tail deletion marker / empty value cut inside its meta is indexed instead of the blob being quarantined"),
  ("C15", "blobs_count/mismatch", "fix: HierarchicalFilters::len", "blobs_count counts empty slots after restore (2 with one blob file)"),
  ("C15", "disk_used/mismatch", "fix: disk_used counts", "disk_used omits an index file that exists while its index is in memory"),
  ("C07", "harm/blob-id-reused", "fix: blob ids of quarantined", "id of a quarantined blob is reused for a new blob after a restart (a later quarantine would overwrite the saved file)"),
